@@ -449,12 +449,15 @@ def check_write_back(ctx):
     # table of row sets is whatever two-level container the selecting
     # index is read from (`idx = table[level][node]`)
     tables = set()
+    def _base_of(e):
+        while isinstance(e, ast.Subscript):
+            e = e.value
+        return e.id if isinstance(e, ast.Name) else None
     for d in rd.reaching(idx_var, sel[0].id):
         v = getattr(d, 'value', None)
         if d.kind == 'assign' and isinstance(v, ast.Subscript) \
-                and isinstance(v.value, ast.Subscript) \
-                and isinstance(v.value.value, ast.Name):
-            tables.add(v.value.value.id)
+                and _base_of(v) is not None:
+            tables.add(_base_of(v))
     n_sets = 0
     for node in cfg.nodes:
         if node.kind != 'stmt' or node.id not in rd.live:
@@ -462,10 +465,12 @@ def check_write_back(ctx):
         st = node.ast
         if isinstance(st, ast.Assign) and len(st.targets) == 1:
             tg = st.targets[0]
-            if isinstance(tg, ast.Subscript) and isinstance(
-                    tg.value, ast.Subscript) and isinstance(
-                        tg.value.value, ast.Name) \
-                    and tg.value.value.id in tables:
+            if isinstance(tg, ast.Subscript) and _base_of(tg) in tables \
+                    and not (isinstance(st.value, (ast.Dict, ast.Call))
+                             and not isinstance(tg.value, ast.Subscript)
+                             and isinstance(st.value, ast.Call)
+                             and getattr(st.value.func, 'id', '')
+                             == 'dict'):
                 n_sets += 1
                 t = ex.expand(st.value, node.id)
                 ok = False
